@@ -11,7 +11,7 @@ ENGINES = [
 ]
 NOTES = ('Exit codes: 0 held within bounds (inconclusive obligations are listed in evidence, never counted as success of that obligation), '
          '1 violation (replayed against the real code), 2 harness error (never a VIOLATION line). Known findings: known_findings.json.')
-NOT_YET = 'check not built yet in this round (see DESIGN.md section 10, build order); no claim is made'
+NOT_YET = 'E2 (JavaScript kernels lowered to Python) not built yet; no claim is made until the lowering validates (DESIGN.md 1.2, fallback: not applicable)'
 NOT_APPLICABLE = {
     'C19': 'no JavaScript symbolic executor is available offline and rbql.js is an async eval-based engine that a kernel translator cannot lower (DESIGN.md C19)',
 }
@@ -47,5 +47,32 @@ CLAIMED = {
               'Bounds as stated; re.escape stubbed by a homomorphic marker in the structure lemma only. Outside: multi-line texts, JS twin.',
               'CrossHair symbolic execution of like_to_regex / LIKE via query_table (z3), differential against dynamic-programming matcher'),
 }
+
+CLAIMED.update({
+    'C08': _c(BMC + 'every generated respelling (composition of the property\'s spelling transformations) equals the reference semantics of its base query on a symbolic table; the real literal scanner/combiner is opaque for every symbolic literal content.', 'C08',
+              'Bounds: 15 base queries x 6 (quick) / 24 (thorough) random compositions seeded by VERIF_SEED; literal content len<=3/4 (scanner back-reference expanded mechanically, validated per run); 28 hostile literals end to end. Outside: symbolic query text as a whole, JS twin.',
+              'CrossHair symbolic execution of query_table on respelled texts + of separate_string_literals with a mechanically lowered regex (z3)'),
+    'C09': _c(BMC + 'named column references denote the column at that header position (symbolic neighbours / hostile concrete names), escape and index-map lemmas over symbolic names, and header-line / WITH-modifier handling over symbolic CSV text.', 'C09',
+              'Bounds: 3-name headers, symbolic names len<=2/3, 16 hostile names, CSV texts 2-3 lines x <=2 chars, caller flag x 5 modifiers, input and join table. Outside: pandas/sqlite header sources.',
+              'CrossHair symbolic execution of query_table / rbql_engine.query over CSVRecordIterator on stub streams (z3)'),
+    'C10': _c(BMC + 'quote->split kernel lemma and real CSVWriter->CSVRecordIterator round trip for every representable table within bounds; lossy-output warnings iff; known finding F5 (multi-character delimiter under quoted policies) reproduced, its complement holds.', 'C10',
+              'Bounds: kernel <=5 chars in 1-3 fields; pipeline <=2x2 tables with <=3 (quick)/4 chars; delimiters , ; TAB | SPACE :: and non-ASCII; LF/CRLF/CR. Text level only: utf-8/latin-1 codec layers (io.TextIOWrapper) trusted/outside.',
+              'CrossHair symbolic execution of csv_utils and rbql_csv writer->reader pipeline on stub streams (z3)'),
+    'C12': _c(BMC + 'for every text and every partition into reads (symbolic pieces) and chunk size the real reader returns what the reference reader derives from the concatenation.', 'C12',
+              'Bounds: total length <=3 (quick)/<=5, 1-3 pieces, chunk sizes 1,2,3,1024, 11 reader configurations. Outside: byte-level partitions of multi-byte encodings (io.TextIOWrapper incremental decoder, trusted).',
+              'CrossHair symbolic execution of rbql_csv.CSVRecordIterator over a piece-delivering stub stream (z3), differential against reference reader'),
+    'C13': _c(BMC + 'query_table == query()+Table adapters == user-written iterator/writer/registry == CSV adapters on symbolic string tables; CLI contract of rbql_main.main() for every outcome of a nondeterministic query_csv stub.', 'C13',
+              'Claimed: list/query()/CSV adapters and the CLI contract in process. NOT claimed: real subprocess, files on disk, pandas, sqlite (OS / C boundaries).',
+              'CrossHair symbolic execution of the adapters and of rbql_main.main with a nondeterministic stub engine (z3)'),
+    'C14': _c(BMC + 'poisoned-record family for every evaluating clause (error class, first offending record number/field, rows already written), static-mistake family (error class, nothing written), warning iff-conditions for ragged tables and CSV adapters.', 'C14',
+              'Bounds: <=3 int rows, all ragged shapes <=3x2, CSV texts 2 lines <=3 chars. Message contents beyond the documented prefix are not asserted.'),
+    'C15': _c(BMC + 'symbolic fault index: broken pipe at any write (returns, prefix, no further writes/pulls), undecodable input at any read (IO-handling error only), all opened files closed on every path of query_csv over an in-memory file table, user-writer protocol for any refusal index.', 'C15',
+              'Bounds: tables <=2 (quick)/3 rows, CSV texts 2 lines x <=2 chars, k/m any non-negative int. Outside: real UTF-8 decoder byte positions, real pipes/fds.',
+              'CrossHair symbolic execution with fault-injecting stub streams whose fault position is a symbolic integer (z3)'),
+    'C16': _c(BMC + 'probe result unchanged after every history of <=3 scenario queries (symbolic selectors); nested-execution schedules (query B runs to completion inside any step k of A, depth <=3) leave both results equal to their solo reference.', 'C16',
+              'Claimed: histories + nested schedules. NOT claimed: preemptive thread interleavings (not expressible in CrossHair).',
+              'CrossHair symbolic execution with symbolic history selectors / step indices (z3)'),
+})
+
 for k in CLAIMED:
     ENGINES[0]['serves_properties'].append(k)
